@@ -12,7 +12,7 @@ use std::time::{Duration, UNIX_EPOCH};
 
 pub const LEVEL: &str = "exploration";
 pub const EXHAUSTIVE: bool = false;
-pub const RULE: &str = "generated case = (cfg1, cfg2) over phonetic<->Probhat, phonetic<->synthetic, Probhat<->synthetic and same layout with 1..11 option flips (same data directory); optional initial user auto-correct file; pre-history H1 of 0..5 words (typed, then finished or committed - also non-preselected, i.e. learned); user auto-correct edit in {none, create, change the value of a key typed in H1, add a key for a base of a word typed in H1, remove a key, delete the file} with the file's mtime forced forward; continuation H2 of 1..6 words that re-types words of H1 and new ones, with commits. Oracle (differential): context A = H1, edit, update-engine(cfg2), H2; context B = created with cfg2 over a COPY of the user directory taken at the update, H2; renderings and session flags equal after every key of H2. Non-trivial: the edit touches a word (or a base of a word) typed in H1 and in H2, or the layout changes, or the suggestion option flips; distinct by case. Plus an enumerated part: every SINGLE option flipped by update-engine (11 options x both directions via 6 base settings x 3 layouts), judged on a battery of probes that is sensitive to each option (quoted word, sign at the start, sign after chandrabindu, u-sign after a consonant, reph, left-standing sign first, dictionary prefix, number-pad keys, emoticon; phonetic: quoted words, emoticon, emoji name, learned word, suffix form). Layout pairs include Probhat <-> a different layout file with the same file NAME in another directory. Edit kinds include a same-length value (the file's size stays); plus a directed part: every entry of the four start documents x {same-length value, entry removed, value changed} x English x commit/finish, words and suffixed forms typed before and after.";
+pub const RULE: &str = "generated case = (cfg1, cfg2) over phonetic<->Probhat, phonetic<->synthetic, Probhat<->synthetic and same layout with 1..11 option flips (same data directory); optional initial user auto-correct file; pre-history H1 of 0..5 words (typed, then finished or committed - also non-preselected, i.e. learned); user auto-correct edit in {none, create, change the value of a key typed in H1, add a key for a base of a word typed in H1, remove a key, delete the file} with the file's mtime forced forward; continuation H2 of 1..6 words that re-types words of H1 and new ones, with commits. Oracle (differential): context A = H1, edit, update-engine(cfg2), H2; context B = created with cfg2 over a COPY of the user directory taken at the update, H2; renderings and session flags equal after every key of H2. Non-trivial: the edit touches a word (or a base of a word) typed in H1 and in H2, or the layout changes, or the suggestion option flips; distinct by case. Plus an enumerated part: every SINGLE option flipped by update-engine (11 options x both directions via 6 base settings x 3 layouts), judged on a battery of probes that is sensitive to each option (quoted word, sign at the start, sign after chandrabindu, u-sign after a consonant, reph, left-standing sign first, dictionary prefix, number-pad keys, emoticon; phonetic: quoted words, emoticon, emoji name, learned word, suffix form). Layout pairs include Probhat <-> a different layout file with the same file NAME in another directory. Edit kinds include a same-length value (the file's size stays); plus a directed part: every entry of the four start documents x {same-length value, entry removed, value changed; file away-update-back untouched, file deleted} x English x commit/finish, words and suffixed forms typed before and after.";
 pub const ASSUMPTIONS: &[&str] = &[
     "mtime is forced forward on every edit, so 'edited in the meantime' is unambiguous",
     "the bundled data directory is the same in cfg1 and cfg2",
@@ -617,7 +617,13 @@ fn directed_entry_edits(run: &Run) {
             }
         }
         for j in 0..keys_of.len() as u8 {
-            for (e, edit) in [Edit::SameLength(j), Edit::RemoveKey(j), Edit::ChangeValue(j, 1)].into_iter().enumerate() {
+            // the two edits that concern the whole file go with the first key only
+            let mut kinds = vec![Edit::SameLength(j), Edit::RemoveKey(j), Edit::ChangeValue(j, 1)];
+            if j == 0 {
+                kinds.push(Edit::AwayAndBack);
+                kinds.push(Edit::DeleteFile);
+            }
+            for (e, edit) in kinds.into_iter().enumerate() {
                 for bits in [0b010u16, 0b011] {
                     for commit in [None, Some(0u16)] {
                         let cfg = crate::driver::Opts::from_bits(0, bits).letters();
